@@ -95,6 +95,12 @@ type interpreter struct {
 	// runnable, so interpreter state needs no locking. abort is closed when
 	// any thread ends the run (or when the run is over) so that every
 	// goroutine parked in a channel operation unwinds.
+	race      *raceState
+	// gil: only the goroutine holding it interprets; it is released while a
+	// goroutine is parked in a channel operation. (The harness scheduler hands
+	// its baton through channels, but between a send and the sender's next
+	// blocking receive both sides would otherwise run.)
+	gil       sync.Mutex
 	abort     chan struct{}
 	abortOnce sync.Once
 	abortVal  interface{}
@@ -105,6 +111,7 @@ type interpreter struct {
 // (the cooperative scheduler); everything else in zzverif is an intrinsic.
 var verifInterpreted = map[string]bool{
 	"Go": true, "Yield": true, "WaitUntil": true, "RunThreads": true, "threadMain": true, "ThreadID": true, "init": true,
+	"runFree": true,
 }
 
 // threadAbort unwinds a parked goroutine after the run has ended.
@@ -217,7 +224,13 @@ func visitInstr(fr *frame, instr ssa.Instruction) continuation {
 		// no-op
 
 	case *ssa.UnOp:
-		fr.env[instr] = fr.i.unop(instr, fr.get(instr.X))
+		x := fr.get(instr.X)
+		if fr.i.race != nil && instr.Op == token.MUL {
+			if p, ok := x.(*value); ok && p != nil {
+				fr.i.raceRead(p, instr)
+			}
+		}
+		fr.env[instr] = fr.i.unop(instr, x)
 
 	case *ssa.BinOp:
 		fr.env[instr] = fr.i.binop(instr.Op, instr.X.Type(), fr.get(instr.X), fr.get(instr.Y))
@@ -275,6 +288,9 @@ func visitInstr(fr *frame, instr ssa.Instruction) continuation {
 		addr := fr.get(instr.Addr).(*value)
 		if addr == nil {
 			panic(runtimePanic{"runtime error: invalid memory address or nil pointer dereference"})
+		}
+		if fr.i.race != nil {
+			fr.i.raceWrite(addr, instr)
 		}
 		store(mustDeref(instr.Addr.Type()), addr, fr.get(instr.Val))
 
@@ -342,6 +358,11 @@ func visitInstr(fr *frame, instr ssa.Instruction) continuation {
 		fr.env[instr] = makeMap(instr.Type().Underlying().(*types.Map).Key(), 0)
 
 	case *ssa.Range:
+		if fr.i.race != nil {
+			if m, ok := fr.get(instr.X).(*smap); ok && m != nil {
+				fr.i.raceRead(m, instr)
+			}
+		}
 		fr.env[instr] = fr.i.rangeIter(fr, fr.get(instr.X), instr.X.Type())
 
 	case *ssa.Next:
@@ -413,6 +434,11 @@ func visitInstr(fr *frame, instr ssa.Instruction) continuation {
 		}
 
 	case *ssa.Lookup:
+		if fr.i.race != nil {
+			if m, ok := fr.get(instr.X).(*smap); ok && m != nil {
+				fr.i.raceRead(m, instr)
+			}
+		}
 		fr.env[instr] = fr.i.lookup(instr, fr.get(instr.X), fr.get(instr.Index))
 
 	case *ssa.MapUpdate:
@@ -421,6 +447,9 @@ func visitInstr(fr *frame, instr ssa.Instruction) continuation {
 		v := fr.get(instr.Value)
 		switch m := m.(type) {
 		case *smap:
+			if fr.i.race != nil && m != nil {
+				fr.i.raceWrite(m, instr)
+			}
 			m.insert(fr.i, key, v)
 		default:
 			panic(fmt.Sprintf("illegal map type: %T", m))
